@@ -5,7 +5,7 @@
 #             with the hash recorded next to the model definition;
 #         (b) correspondence: extracted model vs the implementation compiled from /repo, every call form
 # search: python big-integer specification oracle on the same cases
-import hashlib, json, math, os, re, struct, subprocess, sys
+import hashlib, json, math, os, re, struct, subprocess, sys, time
 import vf
 sys.path.insert(0, os.path.join(vf.ROOT, "harness"))
 import c01_table as T
@@ -149,6 +149,84 @@ def census(ann):
     return n, bad
 
 
+# ------------------------------------------------------------------ cast / operator census (the bodies without a GMP primitive)
+# 190 of the modelled bodies are forwarders: `return this->operator+=((int64_t)n);`, `return !this->operator<(l);`, `return n + (uint64_t)l;`.
+# For those the C casts (by target type, incl. static_cast, functional casts and std::abs) are counted in the current source text and compared
+# with the conversion functions of the C-integer layer named by the model definition (i32_to_i64/to_i64, u32_to_u64/to_u64, abs_i64 ...), and
+# the operators the body applies (explicit `operator@(`, infix, prefix; comparisons up to direction) with the operator bodies the model calls.
+# This is the defect class of fix-1 / fix-2 (a forwarder widening through the wrong type).
+CAST_CLASSES = {   # class -> (source regexes, model conversion functions)
+    "int64_t":  ([r"\(int64_t\)", r"static_cast<int64_t>", r"\(long\)", r"(?<![\w<])int64_t\("], ["i32_to_i64", "to_i64"]),
+    "uint64_t": ([r"\(uint64_t\)", r"static_cast<uint64_t>", r"\(unsignedlong\)", r"(?<![\w<])uint64_t\("], ["u32_to_u64", "to_u64"]),
+    "int32_t":  ([r"\(int32_t\)", r"static_cast<int32_t>", r"\(int\)", r"(?<![\w<])int32_t\("], ["to_i32"]),
+    "uint32_t": ([r"\(uint32_t\)", r"static_cast<uint32_t>", r"(?<![\w<])uint32_t\("], ["to_u32"]),
+    "int16_t":  ([r"\(int16_t\)"], ["to_i16"]), "uint16_t": ([r"\(uint16_t\)"], ["to_u16"]),
+    "int8_t":   ([r"\(int8_t\)", r"\(signedchar\)", r"\(char\)"], ["to_i8"]), "uint8_t": ([r"\(uint8_t\)", r"\(unsignedchar\)"], ["to_u8"]),
+    "abs":      ([r"std::abs\("], ["abs_i64", "abs_i32"]),
+}
+OPSYM = {"opPlusEq": "+=", "opPlus": "+", "opMinusEq": "-=", "opMinus": "-", "opMulEq": "*=", "opMul": "*", "opNe": "!=", "opEq": "==",
+         "opGt": ">", "opLt": "<", "opGe": ">=", "opLe": "<=", "opShlEq": "<<=", "opShl": "<<", "opShrEq": ">>=", "opShr": ">>",
+         "opXorEq": "^=", "opXor": "^", "opOrEq": "|=", "opOr": "|", "opAndEq": "&=", "opAnd": "&", "opNot": "~", "opNeg": "neg", "negb": "!",
+         "preinc": "++", "predec": "--"}
+NORM = {"!=": ["!", "eq"], "==": ["eq"], "<": ["lt"], ">": ["lt"], "<=": ["le"], ">=": ["le"]}
+def norm(ops):
+    out = []
+    for o in ops:
+        out += NORM.get(o, [o])
+    return sorted(out)
+def src_casts(body):
+    b = re.sub(r"\((?:int|uint32_t|int32_t|uint64_t|int64_t|long)\)\*this", "CONV", body)    # `(int)*this` is Integer::operator int, a callee
+    return {cl: sum(len(re.findall(r, b)) for r in srx) for cl, (srx, _) in CAST_CLASSES.items()}
+def model_casts(d):
+    return {cl: sum(len(re.findall(r"\b%s\b" % f, d)) for f in mfn) for cl, (_, mfn) in CAST_CLASSES.items()}
+def src_ops(body):
+    b = re.sub(r"\b\w+<[\w:]+>", "T", body)                       # template arguments are not comparisons
+    b = b.replace("return", ";").replace("->", ".").replace("*this", "THIS").replace("else", ";")
+    ops = re.findall(r"operator([-+*/%<>=!^|&~]+)\(", b)
+    b = re.sub(r"operator[-+*/%<>=!^|&~]+\(", "(", b)
+    b = re.sub(r"\((?:u?int\d+_t|Integer|double|float|bool|long|int|unsignedlong|unsignedchar|signedchar)\)", "", b)
+    pre = re.findall(r"(?<![\w)\]])(!|~|\+\+|--|-)(?=[\w(])", b)
+    ops += ["neg" if o == "-" else o for o in pre]
+    b = re.sub(r"(?<![\w)\]])(!|~|\+\+|--|-)(?=[\w(])", "", b)
+    ops += re.findall(r"(?<=[\w)\]])(<<=|>>=|\+=|-=|\*=|\^=|\|=|&=|!=|==|<=|>=|<<|>>|\+|-|\*|<|>)(?=[\w(:])", b)
+    return norm(ops)
+def model_ops(d):
+    ops = [OPSYM[k] for k in re.findall(r"\b(%s)(?:_\w+)?\b" % "|".join(sorted(OPSYM, key=len, reverse=True)), d)]
+    ops += [{"=?": "==", "<?": "<", "<=?": "<="}[t] for t in re.findall(r"(<=\?|<\?|=\?)", d)]
+    ops += re.findall(r"\s([-+*])\s", d)
+    return norm(ops)
+
+CENSUS2_EXPECT_SRC = {      # bodies whose loops live in helper Fixpoints of the model: the source token list is written down
+    "logp": ["!", "*", "*=", "+=", "<<", "<<", "le", "le", "lt"],
+    "pp": ["!", "eq"],
+}
+
+
+def census2(ann, skip=()):
+    defs = model_definitions()
+    bad, n = [], 0
+    for a in ann:
+        if a["name"] in skip:
+            continue
+        body = extract_body(a["file"], a["sig"])
+        d = defs.get(a["name"])
+        if body is None or d is None:
+            continue
+        prim = {CENSUS_MAP.get(t, t) for t in re.findall(r"mpz_\w+", body)} - CENSUS_IGNORE
+        if prim or re.findall(r"\bisZero\(", body):
+            continue
+        n += 1
+        dd = d.split(":=", 1)[1] if ":=" in d else d
+        sc, mc = src_casts(body), model_casts(dd)
+        if sc != mc:
+            bad.append("%s: the source body casts %s, the model definition converts %s" % (a["name"], {k: v for k, v in sc.items() if v}, {k: v for k, v in mc.items() if v}))
+        so = src_ops(body)
+        mo = CENSUS2_EXPECT_SRC[a["name"]] if a["name"] in CENSUS2_EXPECT_SRC else model_ops(dd)
+        if so != mo:
+            bad.append("%s: the source body applies the operators %s, the model definition %s" % (a["name"], so, mo))
+    return n, bad
+
+
 # ------------------------------------------------------------------ forwarding census (ZRing<Integer> wrappers of givinteger.h)
 # The `@dom` call forms of a wrapper `Rep& f(..) const { return Integer::f(..); }` share the model definition of the function
 # they forward to.  That assumption is read from the current text of givinteger.h: a wrapper that still is a one-line forward
@@ -209,14 +287,47 @@ def install_known():
 
 
 # ------------------------------------------------------------------ running the two executables
-def run_chunks(binary, lines, timeout):
+def run_one(binary, text, timeout, env=None):
+    """-> (rc, stdout lines, stderr); rc = 124 on a wall-clock time-out (the child is killed and reaped)"""
+    e = dict(os.environ)
+    if env:
+        e.update(env)
+    p = subprocess.Popen([binary], stdin=subprocess.PIPE, stdout=subprocess.PIPE, stderr=subprocess.PIPE, universal_newlines=True, errors="replace", env=e)
+    try:
+        out, err = p.communicate(text, timeout=timeout)
+        return p.returncode, out.splitlines(), err
+    except subprocess.TimeoutExpired:
+        p.kill()
+        try:
+            p.communicate(timeout=30)
+        except Exception:
+            pass
+        return 124, [], "[timeout after %ss]" % timeout
+
+
+def run_stream(binary, lines, timeout, env=None):
+    """run_one, restarted after every case on which the harness watchdog ended the process (its last line is then DOES-NOT-RETURN)"""
+    out, err, pos, t0 = [], "", 0, time.time()
+    while True:
+        r, o, e = run_one(binary, "\n".join(lines[pos:]) + "\n", max(30, timeout - (time.time() - t0)), env)
+        err += e
+        if r == 124:
+            return 124, out, err
+        out += o
+        pos = len(out)
+        if r == 0 and pos < len(lines) and o and o[-1].strip() == DNR:
+            continue
+        return r, out, err
+
+
+def run_chunks(binary, lines, timeout, env=None):
     """run the line protocol on contiguous chunks in parallel; -> (rc, output lines, stderr); rc = 124 when a chunk timed out"""
     import concurrent.futures
     k = max(1, min(8, vf.NCPU // 2, len(lines) // 2000 + 1))
     size = (len(lines) + k - 1) // k if lines else 1
     chunks = [lines[i:i + size] for i in range(0, len(lines), size)] or [[]]
     with concurrent.futures.ThreadPoolExecutor(max_workers=len(chunks)) as ex:
-        res = list(ex.map(lambda c: vf.run_lines(binary, "\n".join(c) + "\n", timeout=timeout), chunks))
+        res = list(ex.map(lambda c: run_stream(binary, c, timeout, env), chunks))
     out, err, rc = [], "", 0
     for c, (r, o, e) in zip(chunks, res):
         if r == 124:
@@ -226,6 +337,46 @@ def run_chunks(binary, lines, timeout):
         out += o
         err += e
     return rc, out, err
+
+
+def lines_for(cases, live_fixed):
+    impl_in, model_in = [], []
+    for v, a in cases:
+        spec = T.VARIANTS[v]
+        mname = spec.get("model", v.split("@")[0])
+        mname = live_fixed.get(mname, mname)
+        ks = T.kinds(spec, a)
+        impl_in.append(v + " " + " ".join(fmt_impl(k, x) for k, x in zip(ks, a)))
+        if spec.get("oracle_only"):     # no model (or operands outside the model's reach): nothing to run
+            model_in.append("skip")
+        elif "margs" in spec:      # the model takes the operands the call form duplicates (x op= x) or a destination's old value
+            model_in.append(mname + " " + " ".join(str(x) for x in spec["margs"](*a)))
+        else:
+            model_in.append(mname + " " + " ".join(fmt_model(k, x) for k, x in zip(ks, a)))
+    return impl_in, model_in
+
+
+DNR = "DOES-NOT-RETURN"
+STREAM_CPU_BUDGET = "10"      # CPU seconds per case inside the streams (a legitimate case takes micro- to milliseconds)
+CONFIRM_CPU_BUDGET = "30"     # ... when a case that hit the budget is re-run alone
+PROBE_CPU_BUDGET = "0.3"      # known does-not-return inputs: each in a process of its own (logp leaks ~700 MB per CPU second while it loops)
+PROBE_CONFIRM_BUDGET = "1.0"
+
+
+def finish(chk):
+    """floor on what was actually compared: an inconclusive stream is never counted as a pass of that stream"""
+    fl = chk.cov.setdefault("floor", {})
+    missed = []
+    for key, (got, want) in fl.items():
+        if got < want:
+            missed.append("%s: %d < %d" % (key, got, want))
+    if chk.cov.get("discharged", 0) < chk.cov.get("obligations", 0) and not chk.broken:
+        missed.append("theorems re-checked: %d < %d" % (chk.cov.get("discharged", 0), chk.cov.get("obligations", 0)))
+    chk.cov["floor_missed"] = missed
+    if missed or chk.cov.get("inconclusive"):
+        print("INCONCLUSIVE property=C01 (tooling, not the property): " + "; ".join(chk.cov.get("inconclusive", []) + missed))
+        chk.notes.append("THIS RUN IS INCONCLUSIVE IN PART: " + "; ".join(chk.cov.get("inconclusive", []) + missed))
+    return chk.finish()
 
 
 # ------------------------------------------------------------------ main
@@ -280,8 +431,22 @@ def main(tier, replay=None):
     chk.cov["modelled_bodies"] = len(ann)
     chk.cov["changed_bodies"] = changed
     chk.cov["missing_bodies"] = missing
-    ncen, cbad = census(ann)
+    live_fixed = {}
+    for name, (rel, sig, fixed_sha, fixed_model) in T.FIXED_BODIES.items():
+        if body_sha(rel, sig) == fixed_sha:
+            live_fixed[name] = fixed_model
+    chk.cov["repaired_bodies_live"] = sorted(live_fixed)      # pending repairs whose body is now in the tree: the prepared model of the repaired body runs
+    changed = [c for c in changed if c not in live_fixed]
+    chk.cov["changed_bodies"] = changed
+    if changed:
+        chk.broke("the source text of %d modelled body/bodies changed since the model was written after it (re-read the body, update the model "
+                  "definition and its proofs, then `bin/check C01 --rehash`): %s" % (len(changed), ", ".join(changed[:20])))
+    ann_c = [a for a in ann if a["name"] not in live_fixed]
+    ncen, cbad = census(ann_c)
+    n2, cbad2 = census2(ann_c)
     chk.cov["census_bodies_checked"] = ncen
+    chk.cov["cast_operator_census_bodies_checked"] = n2
+    cbad = cbad + cbad2
     chk.cov["census_mismatches"] = cbad
     if cbad:
         chk.broke("call-sequence census: %d modelled body/bodies no longer call the GMP primitives / zero dispatches their model follows: " % len(cbad)
@@ -293,11 +458,6 @@ def main(tier, replay=None):
         chk.broke("forwarding census: " + "; ".join(fbad[:8]))
     if missing:
         chk.broke("modelled overload bodies no longer found in the source (signature changed or removed): " + ", ".join(missing[:20]))
-    live_fixed = {}
-    for name, (rel, sig, fixed_sha, fixed_model) in T.FIXED_BODIES.items():
-        if body_sha(rel, sig) == fixed_sha:
-            live_fixed[name] = fixed_model
-    chk.cov["repaired_bodies_live"] = sorted(live_fixed)
     # 2b. completeness of the call-form table against the declarations of /repo's current headers (clang AST)
     decl_timeout = False
     try:
@@ -315,7 +475,9 @@ def main(tier, replay=None):
         exr[r] = exr.get(r, 0) + 1
     chk.cov["declarations_excluded_by_reason"] = exr
     if cv["declarations"] == 0 and not decl_timeout:
-        chk.broke("cannot read the declarations of Integer / ZRing<Integer> from /repo's headers (clang AST dump failed)", cv["err"])
+        # clang++ missing or crashed: our tooling, not the property (headers that do not parse make the harness build fail below)
+        chk.cov["inconclusive"].append("clang AST dump produced no declarations (%s); the declaration completeness check did not run" % cv["err"][:200])
+    chk.cov.setdefault("floor", {})["public declarations read"] = (cv["declarations"], 400)
     if cv["unmapped"]:
         chk.broke("public overloads declared in the headers that the C01 call-form table does not know (new or changed signature): "
                   + "; ".join(cv["unmapped"][:12]))
@@ -333,10 +495,10 @@ def main(tier, replay=None):
     himpl, l2 = vf.build_harness("c01_integer.C", deps=HARNESS_DEPS)
     if himpl is None and "[timeout after" in (l2 or ""):
         chk.cov["inconclusive"].append("compiling the implementation harness / library timed out; no comparison in this run")
-        return chk.finish()
+        return finish(chk)
     if himpl is None:
         chk.broke("implementation harness does not compile against /repo", l2)
-        return chk.finish()
+        return finish(chk)
     # 4. cases
     per = 60 if tier == "quick" else 3000
     cases = []
@@ -363,38 +525,67 @@ def main(tier, replay=None):
         chk.cov["grid_zero_x_word_limit_pairs_verified"] = nz
         if lost:
             chk.broke("the deterministic grid no longer contains a special accumulator x word limit pair: " + "; ".join(lost[:6]))
-    impl_in, model_in = [], []
-    for v, a in cases:
-        spec = T.VARIANTS[v]
-        mname = spec.get("model", v.split("@")[0])
-        mname = live_fixed.get(mname, mname)
-        ks = T.kinds(spec, a)
-        impl_in.append(v + " " + " ".join(fmt_impl(k, x) for k, x in zip(ks, a)))
-        if spec.get("oracle_only"):     # no model (or operands outside the model's reach): nothing to run
-            model_in.append("skip")
-        elif "margs" in spec:      # the model takes the operands the call form duplicates (x op= x) or a destination's old value
-            model_in.append(mname + " " + " ".join(str(x) for x in spec["margs"](*a)))
-        else:
-            model_in.append(mname + " " + " ".join(fmt_model(k, x) for k, x in zip(ks, a)))
-    rc, iout, ierr = run_chunks(himpl, impl_in, 1800)
+    # deterministic probes of the inputs on which an operation is known not to return (findings): appended as cases, run apart
+    nstream = len(cases)
+    if not replay:
+        for v in sorted(T.VARIANTS):
+            for a in T.VARIANTS[v].get("probes", []):
+                cases.append((v, list(a)))
+    probe_idx = list(range(nstream, len(cases)))
+    if replay:      # a replayed case may be one that does not return: run every replayed case as a probe
+        probe_idx, nstream = list(range(len(cases))), 0
+    impl_in, model_in = lines_for(cases, live_fixed)
+    wd = {"C01_CPU_BUDGET": STREAM_CPU_BUDGET}
+    rc, iout, ierr = run_chunks(himpl, impl_in[:nstream], 1800, wd)
     if rc == 124:
-        chk.cov["inconclusive"].append("the implementation harness did not finish within its time limit (machine load); no comparison in this run")
-        return chk.finish()
-    if rc != 0 or len(iout) != len(cases):
-        chk.broke("implementation harness failed (rc=%s, %d/%d lines)" % (rc, len(iout), len(cases)), ierr + "\n" + (impl_in[len(iout)] if len(iout) < len(impl_in) else ""))
-        return chk.finish()
+        chk.cov["inconclusive"].append("the implementation harness did not finish within its wall-clock limit (machine load); no comparison in this run")
+        chk.cov["floor"]["oracle comparisons"] = (0, int(0.9 * len(cases)))
+        return finish(chk)
+    if rc != 0 or len(iout) != nstream:
+        chk.broke("implementation harness failed (rc=%s, %d/%d lines)" % (rc, len(iout), nstream), ierr + "\n" + (impl_in[len(iout)] if len(iout) < len(impl_in) else ""))
+        return finish(chk)
+    # a case that used up its CPU budget inside a stream is re-run alone with a larger budget before it is called a hang
+    dnr_confirmed, dnr_recovered, per_form, dnr_skipped = [], 0, {}, 0
+    for i in range(nstream):
+        if iout[i].strip() == DNR:
+            if per_form.get(cases[i][0], 0) >= 3:     # three confirmed hangs of one call form are enough: the others are neither failing inputs nor passes
+                iout[i] = "PROBE-NOT-RUN"; dnr_skipped += 1
+                continue
+            per_form[cases[i][0]] = per_form.get(cases[i][0], 0) + 1
+            r, o, _ = run_one(himpl, impl_in[i] + "\n", 600, {"C01_CPU_BUDGET": CONFIRM_CPU_BUDGET})
+            if r == 0 and len(o) == 1 and o[0].strip() != DNR:
+                iout[i] = o[0]; dnr_recovered += 1
+            elif r == 0 and len(o) == 1:
+                dnr_confirmed.append(i)
+            else:
+                chk.cov["inconclusive"].append("re-run of a case that hit its CPU budget failed (rc=%s): %s" % (r, impl_in[i][:120]))
+    # probes: one process per case, small CPU budget, confirmed with a larger one
+    for i in probe_idx:
+        r, o, e = run_one(himpl, impl_in[i] + "\n", 300, {"C01_CPU_BUDGET": PROBE_CPU_BUDGET})
+        if r == 0 and len(o) == 1 and o[0].strip() == DNR:
+            r, o, e = run_one(himpl, impl_in[i] + "\n", 600, {"C01_CPU_BUDGET": PROBE_CONFIRM_BUDGET})
+            if r == 0 and len(o) == 1 and o[0].strip() == DNR:
+                dnr_confirmed.append(i)
+        if r != 0 or len(o) != 1:
+            chk.cov["inconclusive"].append("probe %s could not be run (rc=%s)" % (impl_in[i][:80], r))
+            o = ["PROBE-NOT-RUN"]
+        iout.append(o[0])
+    chk.cov["cpu_watchdog"] = {"per_case_cpu_budget_s": float(STREAM_CPU_BUDGET), "confirm_budget_s": float(CONFIRM_CPU_BUDGET),
+                               "probe_budget_s": float(PROBE_CPU_BUDGET), "probe_confirm_budget_s": float(PROBE_CONFIRM_BUDGET),
+                               "probes": len(probe_idx), "cases_over_budget_then_returned": dnr_recovered, "cases_over_budget_not_re_run": dnr_skipped,
+                               "cases_confirmed_not_returning": [impl_in[i] for i in dnr_confirmed][:20]}
     mout = None
     if drv:
         rc, mout, merr = run_chunks(drv, model_in, 2400)
         if rc == 124:
-            chk.cov["inconclusive"].append("the extracted model driver did not finish within its time limit (machine load); "
+            chk.cov["inconclusive"].append("the extracted model driver did not finish within its wall-clock limit (machine load); "
                                            "implementation compared with the specification oracle only in this run")
             mout = None
         elif rc != 0 or len(mout) != len(cases):
             chk.broke("model driver failed (rc=%s, %d/%d lines)" % (rc, len(mout), len(cases)), merr)
             mout = None
     # 5. three-way comparison
-    ncorr = 0
+    ncorr = nspec = 0
     dist, corr_bad, unknown_model = {}, {}, set()
     for i, (v, a) in enumerate(cases):
         spec = T.VARIANTS[v]
@@ -412,11 +603,23 @@ def main(tier, replay=None):
         if got == ["UNKNOWN-VARIANT"]:
             chk.broke("harness does not know variant " + v)
             continue
-        spec_fail = exp is not None and got != exp
-        if spec_fail:
+        if got == ["PROBE-NOT-RUN"]:
+            continue
+        if got == [DNR]:        # confirmed with the larger CPU budget: a concrete failing input whatever the oracle says
+            kl = T.klass_of(spec, a)
+            chk.fail_input(spec["site"], kl if "does not return" in kl else "does not return",
+                           {"variant": v, "args": [T.ser(k, x) for k, x in zip(ks, a)]}, exp or ["<the call returns>"], DNR,
+                           "the call does not return within %s s of CPU time (re-run alone)" % (PROBE_CONFIRM_BUDGET if i >= nstream else CONFIRM_CPU_BUDGET))
+        if exp is not None:
+            nspec += 1
+        spec_fail = got == [DNR] or (exp is not None and got != exp)
+        if spec_fail and got != [DNR]:
             chk.fail_input(spec["site"], T.klass_of(spec, a),
                            {"variant": v, "args": [T.ser(k, x) for k, x in zip(ks, a)]}, exp, iout[i].strip(),
                            "implementation differs from integer arithmetic over Z")
+        if mout is not None and not spec.get("oracle_only") and spec_fail:
+            if mout[i].split() == got:     # the model (written after the code as it is) agrees with the implementation on the failing input
+                ncorr += 1
         if mout is not None and not spec.get("oracle_only") and not spec_fail:   # a failing input is not reported twice
             mg = mout[i].split()
             if mg == ["UNKNOWN-OP"]:
@@ -439,6 +642,10 @@ def main(tier, replay=None):
                        "2^64+-1, multi-limb values with limbs from {0,1,2^63,2^64-1,random}; word operands drawn from the edges of their C type "
                        "and random; non-trivial = some big-integer operand with |x| > 1; distinct = (variant, operands)")
     chk.cov["traces_validated_against_impl"] = ncorr
+    chk.cov["oracle_comparisons"] = nspec
+    nmodelled = sum(1 for v, a in cases if not T.VARIANTS[v].get("oracle_only"))
+    chk.cov["floor"]["oracle comparisons"] = (nspec, int(0.9 * sum(1 for v, a in cases if T.VARIANTS[v]["oracle"] is not None)))
+    chk.cov["floor"]["correspondence comparisons (model = implementation)"] = (ncorr, int(0.9 * max(0, nmodelled - len(chk.failing))))
     chk.cov["variants"] = len(T.VARIANTS)
     chk.cov["variants_oracle_only"] = sorted(v for v in T.VARIANTS if T.VARIANTS[v].get("oracle_only"))
     chk.cov["distribution_by_variant"] = dist
@@ -454,7 +661,7 @@ def main(tier, replay=None):
         fam.setdefault(b, {})[v] = n
     chk.cov["call_forms_by_body"] = fam
     chk.cov["call_forms"] = len(dist)
-    return chk.finish()
+    return finish(chk)
 
 
 if __name__ == "__main__":
